@@ -234,6 +234,9 @@ def run_case(case, ch, workdir):
         final = [j.state for j in jobs]
         all_completed = bool(jobs) and all(s == "COMPLETED" for s in final)
         results_ok = _results_ok(cache)
+        expected_submissions = 3 if use_wf else 1
+        if all_completed and len(jobs) > expected_submissions:
+            violation(res, "needless-resubmission", sig, f"{len(jobs)} scheduler jobs were submitted for {expected_submissions} pydra job(s) although the scheduler reported every one of them COMPLETED and none failed, was killed or evicted; {ctx}")
         if all_completed and results_ok:
             if status != "ok":
                 violation(res, "completed-reported-failed", sig, f"every scheduler job COMPLETED and the results are loadable, but the submission raised {errtext}; {ctx}")
